@@ -169,4 +169,14 @@ CHECKS = {
         abnormal_exit_is_violation=True,
         assumptions=HARNESS_TRUST,
     ),
+    "C19": dict(
+        level="exploration",
+        rule=("1-3 associations on one channel, 0-2 polls each with periods 300..2500 ms, keep-alive off/1500/4000 ms, user reads and writes submitted singly and in bursts at arbitrary virtual instants (many aligned with poll deadlines), poll demands, replies prompt / late / never, unsolicited, stale and link-layer noise; "
+              "a reference schedule model is evaluated at every request written: Q1 FIFO per association and user requests ahead of polls/keep-alives, Q2 polls never before completion+period, Q3 least-recently-served association first, Q4 keep-alive only after silence and after due polls, Q5 one outstanding request, Q6 write instant == max(channel free, earliest eligibility) exactly and scheduler passes bounded by events"),
+        runs=[dict(check="c19", timeout_s=900)],
+        required=["Q1_fifo_ok", "Q1_no_user_waiting_ok", "Q2_poll_not_early_ok", "Q3_turn_taken_in_order_ok", "Q4_keep_alive_after_silence_ok", "Q5_channel_free_ok", "Q6_wake_exact_ok", "Q6_woke_at_deadline_ok", "Q6_no_spin_ok"],
+        thorough_scale=12.0,
+        abnormal_exit_is_violation=True,
+        assumptions=HARNESS_TRUST,
+    ),
 }
